@@ -31,10 +31,14 @@ def check_responsibility(P, R):
     # exp(lwl - ll[None, :]) where ll = reduce_loglikelihood(lwl) of the *same* lwl
     found = 0
     for n in walk_no_nested(f.node):
-        if isinstance(n, ast.Call) and src(n.func).split(".")[-1] == "exp" and n.args and isinstance(n.args[0], ast.BinOp) and isinstance(n.args[0].op, ast.Sub):
+        if isinstance(n, ast.Call) and src(n.func).split(".")[-1] == "exp" and n.args:
+            from ..dataflow import resolve_name as _rn
+
+            arg0, st = _rn(du, n.args[0], du.stmt_of(n))
+            if not (isinstance(arg0, ast.BinOp) and isinstance(arg0.op, ast.Sub)):
+                continue
             found += 1
-            l, r = n.args[0].left, n.args[0].right
-            st = du.stmt_of(n)
+            l, r = arg0.left, arg0.right
             cr = cone(du, r, st, interproc=False)
             # the subtrahend is the reduction of the minuend
             red = [c for c in cr.nodes if isinstance(c, ast.Call) and src(P.peel_call(c, f)[1]).split(".")[-1] in ("reduce_loglikelihood", "logaddexp_reduce", "logsumexp")]
